@@ -223,6 +223,15 @@ func generate(repo string, o *output) (string, []string) {
 		if t.module != "" {
 			b.WriteString("End " + t.module + ".\n\n")
 		}
+		// every generated definition can be unfolded by name-independent proof scripts
+		for _, d := range u.order {
+			q := d.name
+			if t.module != "" {
+				q = t.module + "." + q
+			}
+			b.WriteString("#[global] Hint Unfold " + q + " : go2coq.\n")
+		}
+		b.WriteString("\n")
 	}
 	return b.String(), summary
 }
